@@ -46,6 +46,7 @@ def build(tier, rnd):
         out.append((k, s, ["ansi"]))
     out += same_alias_cases(45 if tier == "quick" else 600, common.env.seed() * 31 + 7)
     out += capture_cases(24 if tier == "quick" else 300, common.env.seed() * 53 + 3)
+    out += merge_self_cases(6 if tier == "quick" else 40, common.env.seed() * 67 + 13)
     out += dialect_form_cases(40 if tier == "quick" else 400, common.env.seed() * 59 + 11)
     # CTEs that reference themselves, with and without the RECURSIVE keyword
     for key, st, ds in c01.recursive_cte_cases(10 if tier == "quick" else 80, common.env.seed() * 41 + 9):
@@ -70,6 +71,19 @@ DIALECT_FORMS = {
     "tsql": ["isnull(({0} + {1}), {2})", "iif({0} > ({1}), {2}, 0)"],
     "mysql": ["if({0} > ({1}), {2}, 0)", "concat_ws(',', {0}, ({1}))"],
 }
+
+
+def merge_self_cases(n, seed):
+    """MERGE whose UPDATE SET reads the matched target row (a = <target alias>.b): the assignment depends on the target's own column (KF-44)"""
+    from vlib.sqlgen import Base, Stmt, col
+    rnd = random.Random(seed)
+    out = []
+    for i in range(n):
+        tal = f"t{i}" if i % 3 else None
+        tgt = Base(f"tb_mt{i}", rnd.choice([None, "sa"]), tal)
+        out.append((("merge_self", i), Stmt("merge", tgt, None, None, {"source": Base(f"tb_ms{i}", None, f"s{i}"), "update": [("c_1", "c_1")], "self": [("c_9", col("c_2", tgt.key()))],
+                                                                       "self_model": True, "insert": [("k_1", "k_1")] if i % 2 else []}), ["ansi", rnd.choice(["snowflake", "postgres", "bigquery"])]))
+    return out
 
 
 def dialect_form_cases(n, seed):
@@ -205,6 +219,10 @@ def classify(tags, dialect, missing, unexpected, exp, sql=None):
             # the rest must be a listed finding of its own
             other = classify(tags, dialect, m2, u2, exp)
             return ("KF-39+" + other) if other else None
+    # KF-44: a MERGE assignment that reads the target row is attributed to the USING source: exactly the self-assigned columns move from the target to the source
+    if "merge.self_assignment" in t and missing and len(missing) == len(unexpected) and all(m[1] == u[1] and m[0].rsplit(".", 1)[1] == u[0].rsplit(".", 1)[1] for m, u in zip(sorted(missing, key=lambda p: p[1]), sorted(unexpected, key=lambda p: p[1]))) \
+            and {m[0].rsplit(".", 1)[0] for m in missing} <= set(exp.get("write") or []):
+        return "KF-44"
     if sql is not None and _direct_end_star(sql, dialect, missing, unexpected):
         return "KF-39"
     # KF-16e: the legacy analyzer takes the first part of schema.table.column as the qualifier
